@@ -6,10 +6,11 @@ from __future__ import annotations
 import ast
 import re
 
-from ..astutil import attr_chain, call_attr, calls_in, guard_facts, unparse, walk_local
+from ..astutil import attr_chain, call_attr, calls_in, guard_facts, range_bounds, text_facts, unparse, walk_local
 from ..cfg import CFG
 from ..dataflow import Deriv, reaching_defs, resolved_text
 from ..report import Finding, Report
+from ..seqterm import SeqEval, removed_at, replaced_at, show
 from ..srcindex import AnalysisError, Index, raw_funcs
 
 CORE = "xdsl/ir/core.py"
@@ -279,6 +280,13 @@ def check_use_pairing(idx: Index, rep: Report) -> None:
             bad.append(("add", f"`{at_}`: the same Use object must be added to the new value"))
         if cfg.node_of(rem[0]) in cfg.reachable(cfg.node_of(add[0])):
             bad.append(("order", "remove_use must precede add_use (same Use object is re-homed)"))
+        # the stored tuple is the old one with exactly position ixn replaced by the new value
+        sts = [n for n in walk_local(f.node) if isinstance(n, ast.Assign) and unparse(n.targets[0]) == f"self._op.{vals}"]
+        if len(sts) != 1:
+            raise AnalysisError(f"{f.fq}: expected one store to self._op.{vals}")
+        nf = SeqEval(f.node, cfg).eval(sts[0].value, cfg.node_of(sts[0]))
+        if nf != replaced_at(f"self._op.{vals}", ixn, newv):
+            bad.append(("position-store", f"the stored tuple is `{show(nf)}`; it must be the old tuple with exactly position {ixn} replaced by {newv}"))
         if bad:
             for k, m in bad:
                 r.fail(f.fq, Finding("C01.R3", f.fq, k, m, f.loc))
@@ -317,43 +325,79 @@ def check_index_classes(idx: Index, rep: Report) -> None:
     # insert_arg / erase_arg / replace_value_with_new_type
     f = idx.func(CORE, "Block.insert_arg")
     index = f.node.args.args[2].arg
-    facts_ok = any(isinstance(n, ast.If) and unparse(n.test) == f"{index} < 0 or {index} > len(self._args)" and isinstance(n.body[0], ast.Raise) for n in f.node.body)
-    if facts_ok:
-        r.ok(f.fq, f"{f.loc} index range checked")
-    else:
-        r.fail(f.fq, Finding("C01.R5", f.fq, "index-range", "insert_arg does not reject indices outside [0, len]", f.loc))
+    stores = [n for n in walk_local(f.node) if isinstance(n, ast.Assign) and unparse(n.targets[0]) == "self._args"]
+    if not stores:
+        raise AnalysisError(f"{f.fq}: no store to self._args")
+    for st in stores:
+        nonneg, upper = range_bounds(text_facts(f.node, st), index)
+        if nonneg and "len(self._args)" in upper:
+            r.ok(f.fq, f"{f.loc} index range [0, len] established at the rebuild")
+        else:
+            r.fail(f.fq, Finding("C01.R5", f.fq, "index-range", f"insert_arg does not reject indices outside [0, len] before `{unparse(st)[:60]}` (known: {'>= 0' if nonneg else 'no lower bound'}, upper bounds {sorted(upper)})", f.loc))
 
 
 def check_arg_shift(idx: Index, rep: Report) -> None:
     r = rep.rule("C01.R4", "argument/result indices are shifted for exactly the suffix and the tuple is rebuilt around the same position; a retyped value keeps its index and owner", floor=3)
-    f = idx.func(CORE, "Block.insert_arg")
-    index = f.node.args.args[2].arg
-    texts = [unparse(s) for s in f.node.body]
-    bad = []
-    if f"for arg in self._args[{index}:]:\n    arg.index += 1" not in texts:
-        bad.append(("shift", f"arguments at positions >= {index} must have their index incremented by 1"))
-    if f"self._args = tuple(chain(self._args[:{index}], [new_arg], self._args[{index}:]))" not in texts:
-        bad.append(("rebuild", "argument tuple not rebuilt as args[:i] + [new] + args[i:]"))
-    ctor = [c for c in calls_in(f.node) if call_attr(c) == "BlockArgument"]
-    if not (len(ctor) == 1 and len(ctor[0].args) >= 3 and unparse(ctor[0].args[1]) == "self" and unparse(ctor[0].args[2]) == index):
-        bad.append(("new-arg", "the new BlockArgument must be created with owner self and the insertion index"))
-    cfg = CFG(f.node)
-    sh = [n for n in f.node.body if isinstance(n, ast.For)]
-    rb = [n for n in f.node.body if isinstance(n, ast.Assign) and unparse(n.targets[0]) == "self._args"]
-    if sh and rb and cfg.node_of(sh[0]) in cfg.reachable(cfg.node_of(rb[0])):
-        bad.append(("order", "indices must be shifted on the old tuple before it is rebuilt (otherwise the new argument is shifted too)"))
-    (r.ok(f.fq, f"{f.loc} suffix += 1; args[:i] + [new] + args[i:]") if not bad else [r.fail(f.fq, Finding("C01.R4", f.fq, k, m, f.loc)) for k, m in bad])
-    f = idx.func(CORE, "Block.erase_arg")
-    arg = f.node.args.args[1].arg
-    texts = [unparse(s) for s in f.node.body]
-    bad = []
-    if f"for block_arg in self._args[{arg}.index + 1:]:\n    block_arg.index -= 1" not in texts:
-        bad.append(("shift", "arguments after the erased one must have their index decremented by 1"))
-    if f"self._args = tuple(chain(self._args[:{arg}.index], self._args[{arg}.index + 1:]))" not in texts:
-        bad.append(("rebuild", "argument tuple not rebuilt without position arg.index"))
-    if not any(isinstance(n, ast.If) and unparse(n.test) == f"{arg}.block is not self" and isinstance(n.body[0], ast.Raise) for n in f.node.body):
-        bad.append(("owner", "erase_arg must reject an argument of another block"))
-    (r.ok(f.fq, f"{f.loc} suffix -= 1; args[:i] + args[i+1:]") if not bad else [r.fail(f.fq, Finding("C01.R4", f.fq, k, m, f.loc)) for k, m in bad])
+    for q, kind in (("Block.insert_arg", "insert"), ("Block.erase_arg", "erase")):
+        f = idx.func(CORE, q)
+        cfg = CFG(f.node)
+        se = SeqEval(f.node, cfg)
+        bad = []
+        if kind == "insert":
+            index = f.node.args.args[2].arg
+            ctor = [c for c in calls_in(f.node) if call_attr(c) == "BlockArgument"]
+            if len(ctor) != 1:
+                raise AnalysisError(f"{f.fq}: expected one BlockArgument(...) construction")
+            cargs = [resolved_text(cfg, x, cfg.node_of(ctor[0])) for x in ctor[0].args]
+            if not (len(cargs) >= 3 and cargs[1] == "self" and cargs[2] == index):
+                bad.append(("new-arg", "the new BlockArgument must be created with owner self and the insertion index"))
+            delta, first_shifted = 1, index
+        else:
+            arg = f.node.args.args[1].arg
+            index = f"{arg}.index"
+            delta, first_shifted = -1, f"{index} + 1"
+            facts = text_facts(f.node, f.node.body[-1])
+            if not any((t, p) in ((f"{arg}.block is not self", False), (f"{arg}.block is self", True), (f"{arg}.block != self", False), (f"{arg}.block == self", True)) for t, p in facts) and not any(isinstance(n, ast.If) and unparse(n.test) in (f"{arg}.block is not self", f"not {arg}.block is self", f"{arg}.block != self") and isinstance(n.body[-1], ast.Raise) for n in walk_local(f.node)):
+                bad.append(("owner", "erase_arg must reject an argument of another block"))
+        stores = [n for n in walk_local(f.node) if isinstance(n, ast.Assign) and unparse(n.targets[0]) == "self._args"]
+        if len(stores) != 1:
+            raise AnalysisError(f"{f.fq}: expected one store to self._args, found {len(stores)}")
+        st = stores[0]
+        nf = se.eval(st.value, cfg.node_of(st))
+        if kind == "insert":
+            ok_nf = nf is not None and len(nf) == 3 and nf[0] == ("slice", "self._args", None, index) and nf[1][0] == "elem" and nf[2] == ("slice", "self._args", index, None)
+            if ok_nf:
+                ev = nf[1][1]
+                rd = [v for _, v in reaching_defs(cfg, ev, cfg.node_of(st))] if ev.isidentifier() else []
+                if not (len(rd) == 1 and rd[0] is not None and any(x is ctor[0] for x in ast.walk(rd[0]))):
+                    ok_nf = False
+        else:
+            ok_nf = nf == removed_at("self._args", index)
+        if not ok_nf:
+            bad.append(("rebuild", f"argument tuple is rebuilt as `{show(nf)}`; expected " + ("args[:i] + [new] + args[i:]" if kind == "insert" else "args[:i] + args[i+1:]") + f" with i = {index}"))
+        # shift loop: every argument of the old suffix, and only those, gets index +/- 1
+        loops = []
+        for n in walk_local(f.node):
+            if isinstance(n, ast.For) and isinstance(n.target, ast.Name):
+                aug = [b for b in n.body if isinstance(b, ast.AugAssign) and unparse(b.target) == f"{n.target.id}.index"]
+                if aug:
+                    loops.append((n, aug))
+        if len(loops) != 1:
+            bad.append(("shift", f"expected one loop adjusting `.index` of the arguments after the position, found {len(loops)}"))
+        else:
+            lp, aug = loops[0]
+            it = se.eval(lp.iter, cfg.node_of(lp))
+            step = aug[0]
+            sgn = 1 if isinstance(step.op, ast.Add) else -1 if isinstance(step.op, ast.Sub) else 0
+            amount = unparse(step.value)
+            if it != (("slice", "self._args", first_shifted, None),) or len(lp.body) != 1 or (sgn * (int(amount) if amount.lstrip("-").isdigit() else 0)) != delta:
+                bad.append(("shift", f"the loop adjusts `{show(it)}` by {'+' if sgn > 0 else '-'}{amount}; arguments at positions >= {first_shifted} must have their index changed by {delta:+d}"))
+            # the loop must see the OLD tuple: either it runs before the store, or its iterable was captured before it
+            if cfg.node_of(lp) in cfg.reachable(cfg.node_of(st)):
+                cap_before = isinstance(lp.iter, ast.Name) and all(cfg.node_of(st) in cfg.reachable(d) and d not in cfg.reachable(cfg.node_of(st)) for d, _ in reaching_defs(cfg, lp.iter.id, cfg.node_of(lp)))
+                if not cap_before:
+                    bad.append(("order", "indices must be shifted on the old tuple before it is rebuilt (otherwise the new argument is shifted too)"))
+        (r.ok(f.fq, f"{f.loc} suffix {delta:+d}; {show(nf)}") if not bad else [r.fail(f.fq, Finding("C01.R4", f.fq, k, m, f.loc)) for k, m in bad])
     f = idx.func(REWRITER, "Rewriter.replace_value_with_new_type")
     cfg = CFG(f.node)
     val = f.node.args.args[0].arg
